@@ -385,7 +385,7 @@ func (x *g) file(quotaFree, illFormed bool) []string {
 	return b.cells
 }
 
-var allExts = []string{".java", ".py", ".go", ".js", ".ts", ".kt", ".groovy", ".gradle", ".txt", ".md", ".javax", ".jav", ".phodal", ".java", ".py", ".d.ts", ".ts"}
+var allExts = []string{".java", ".py", ".go", ".js", ".ts", ".kt", ".groovy", ".gradle", ".txt", ".md", ".javax", ".jav", ".phodal", ".java", ".py", ".d.ts", ".ts", ".R", ".r", ".S"}
 var names = []string{"a", "B", "Todo", "sub/c", "sub/deep/d", "x.java", "my.test", "todo", "FIXME", "p.py", "src/main/E"}
 
 func gen(seed int64, n int, tier string) []interface{} {
